@@ -173,44 +173,73 @@ def _mk_solver(rlimit):
     return s
 
 
-STAGES = (('proof', 3_000_000), ('refute', 6_000_000), ('proof', 40_000_000), ('refute', 40_000_000))
+P_SMALL, R_SMALL, P_BIG, R_BIG = 3_000_000, 6_000_000, 20_000_000, 20_000_000
+
+
+def _pass(ob, lemmas, ginst, kind, budget):
+    s = _mk_solver(budget)
+    for l in (lemmas if kind == 'proof' else ginst):
+        s.add(l)
+    for h in ob.hyps:
+        s.add(h)
+    s.add(z3.Not(ob.goal))
+    r = s.check()
+    return r, s
 
 
 def discharge(ob, lemmas, ground=None, want_model=True):
-    """Two kinds of pass (DESIGN 3.6): proof with the quantified lemmas; refutation quantifier-free with
-    ground axiom instances.  Staged budgets: valid goals prove quickly, false ones refute quickly, and only
-    the hard rest gets the large (still deterministic, rlimit) budget."""
+    """Two kinds of pass (DESIGN 3.6): *proof* with the quantified lemmas; *refutation* quantifier-free with
+    ground axiom instances (gives models; with lemmas present z3 answers unknown for every false goal).
+    Budgets are rlimits (deterministic).  Order: small proof, small refutation, big proof, big refutation.
+    A refutation found with only ground instances is a *candidate*: it is accepted only after the big proof
+    pass has failed as well, so a goal that is provable within budget is never reported as refuted."""
     t0 = time.time()
     ob.backend = 'z3'
     notes = []
-    ginst = None
-    for kind, budget in STAGES:
-        s = _mk_solver(budget)
-        if kind == 'proof':
-            for l in lemmas:
-                s.add(l)
-        else:
-            if not lemmas and notes:
-                continue        # no lemmas: the proof pass was already quantifier-free
-            if ground is not None:
-                if ginst is None:
-                    ginst = ground(list(ob.hyps) + [ob.goal])
-                for g in ginst:
-                    s.add(g)
-        for h in ob.hyps:
-            s.add(h)
-        s.add(z3.Not(ob.goal))
-        r = s.check()
-        if r == z3.unsat:
-            ob.status = 'proved'
-            break
-        if r == z3.sat and (kind == 'refute' or not lemmas):
-            ob.status = 'refuted'
-            ob.model = s.model()
-            break
-        notes.append('%s@%d:%s' % (kind, budget, s.reason_unknown() if r == z3.unknown else r))
+    ginst = []
+    if ground is not None and lemmas:
+        ginst = ground(list(ob.hyps) + [ob.goal])
+    model = None
+
+    def note(kind, budget, r, s):
+        notes.append('%s@%dM:%s' % (kind, budget // 1_000_000, s.reason_unknown() if r == z3.unknown else r))
+
+    r, s = _pass(ob, lemmas, ginst, 'proof', P_SMALL)
+    if r == z3.unsat:
+        ob.status = 'proved'
+    elif r == z3.sat and not lemmas:
+        ob.status, ob.model = 'refuted', s.model()
     else:
-        ob.status = 'unknown'
+        note('proof', P_SMALL, r, s)
+        if lemmas:
+            r2, s2 = _pass(ob, lemmas, ginst, 'refute', R_SMALL)
+            if r2 == z3.unsat:
+                ob.status = 'proved'
+            elif r2 == z3.sat:
+                model = s2.model()
+            else:
+                note('refute', R_SMALL, r2, s2)
+        if ob.status is None:
+            r3, s3 = _pass(ob, lemmas, ginst, 'proof', P_BIG)
+            if r3 == z3.unsat:
+                ob.status = 'proved'
+            elif r3 == z3.sat and not lemmas:
+                ob.status, ob.model = 'refuted', s3.model()
+            else:
+                note('proof', P_BIG, r3, s3)
+                if model is None and lemmas:
+                    r4, s4 = _pass(ob, lemmas, ginst, 'refute', R_BIG)
+                    if r4 == z3.unsat:
+                        ob.status = 'proved'
+                    elif r4 == z3.sat:
+                        model = s4.model()
+                    else:
+                        note('refute', R_BIG, r4, s4)
+                if ob.status is None:
+                    if model is not None:
+                        ob.status, ob.model = 'refuted', model
+                    else:
+                        ob.status = 'unknown'
     ob.note = ' '.join(notes)
     ob.time = time.time() - t0
     return ob
